@@ -18,3 +18,10 @@ const (
 	cr = '\r'
 	lf = '\n'
 )
+
+const (
+	// maxBulkLength is the maximum length of a bulk string (the default proto-max-bulk-len of Redis).
+	maxBulkLength = 512 * 1024 * 1024
+	// initialArrayCapacity bounds the capacity that is allocated from a declared array size.
+	initialArrayCapacity = 1024
+)
